@@ -2,10 +2,12 @@
 
 package p384
 
-// c14Backend reads the switch arith_amd64.s tests (fp384Mul: MULX path or legacy path).
-func c14Backend() string {
-	if hasBMI2 {
-		return "asm-bmi2"
+// Read-out of the switch arith_amd64.s tests (fp384Mul: MULX path or legacy path). Only this file names hasBMI2.
+func init() {
+	C14ReadBackend = func() string {
+		if hasBMI2 {
+			return "asm-bmi2"
+		}
+		return "asm-legacy"
 	}
-	return "asm-legacy"
 }
